@@ -258,3 +258,14 @@ package evm
 //@   atcall Copy set gQState = result
 //@   atcall New set gQState = result0
 //@   atcall NewEVM assert [queries-run-on-a-private-state] typeIs(arg_statedb, *estate.StateDB) && unbox(arg_statedb, *estate.StateDB) == gQState && calls(Copy) + calls(New) == 1
+
+// committed governance requests leave the pool (C19): the walk over the request list is bounded by the list's own length
+// taken before the walk, so every request that was present when the block was committed is looked at
+//@ ghost gExtLen Int
+//@ func (*ethTxPool).refreshAdminOP
+//@   props C19
+//@   requires tp != nil
+//@   nosafety
+//@   atcall Len set gExtLen = result
+//@   atcall Remove assert [only-requests-found-in-the-block-are-removed] calls(Len) == 2
+//@   loop 0 invariant txsLen == gExtLen && calls(Len) == 2 && 0 <= index
